@@ -285,6 +285,8 @@ func (r *Router) deployTargetsIntoService(service *Service, targetSlot TargetSlo
 
 	err = r.installService(service)
 	if err != nil {
+		// The new targets were never put into service: stop probing them.
+		lb.Dispose()
 		return err
 	}
 
